@@ -1153,9 +1153,6 @@ func TestVerif_C37_Known(t *testing.T) {
 		cases = append(cases, f)
 		vk.Case(true, fmt.Sprintf("%s/%s/%v/%d/%v/%v", f.Sig, f.Hash, f.VC, f.N, f.Genuine, f.Claimed))
 		vk.Sample(true, f)
-		if f.Verified {
-			vk.Known(f.Sig, f.What, f)
-		}
 	}
 	build := func(ht crypto.HashType, vc bool, n int) *c37Tree {
 		ct, err := c37Build(ht, vc, c37FixedElems(n), true)
@@ -1209,5 +1206,11 @@ func TestVerif_C37_Known(t *testing.T) {
 	}
 	for _, f := range cases {
 		fmt.Printf("C37-KNOWN-PROBE sig=%s verified=%v hash=%s vc=%v n=%d genuine=%v claimed=%v depth=%d path=%v\n", f.Sig, f.Verified, f.Hash, f.VC, f.N, f.Genuine, f.Claimed, f.Depth, f.Path)
+	}
+	// report after all cases were evaluated (an unlisted finding stops the test)
+	for _, f := range cases {
+		if f.Verified {
+			vk.Known(f.Sig, f.What, f)
+		}
 	}
 }
